@@ -3,7 +3,7 @@ from . import inbox_common as IC
 from .inbox_common import TRUSTED_BASE, ASSUMPTIONS
 
 COQ_FILES = IC.COQ_FILES
-THEOREMS = ["C03_wakeup_invariant", "C03_quiescent_is_drained", "C03_measure_decreases", "C03_terminates", "C03_no_infinite_run", "C03_no_deadlock", "C03_every_run_drains", "C03_every_run_quiesces", "C03_start_picks_up_backlog", "C03_backlog_is_delivered", "C0123_oracle_sound"]
+THEOREMS = ["C03_wakeup_invariant", "C03_quiescent_is_drained", "C03_measure_decreases", "C03_terminates", "C03_no_infinite_run", "C03_no_deadlock", "C03_every_run_drains", "C03_every_run_quiesces", "C03_start_picks_up_backlog", "C03_backlog_is_delivered", "C0123_oracle_sound", "C03_quiescent_is_drained_over_ring", "C03_terminates_over_ring", "C03_every_run_drains_self"]
 RULE = ("configurations (senders x numbered messages, capacity 1-2, Start racing or not, optional pill) of the real "
         "actor/inbox.go run under the deterministic scheduler: all schedules by DFS with visited-state pruning for the small "
         "ones, seeded random walks for the larger; each kept execution is replayed step by step in the Coq model and every "
